@@ -378,9 +378,8 @@ def r3(ctx, cfg):
     ctx.ob(R, key, "two-returns", n == 2 and seen_ok, "expected one Ok and one Err return, found %d" % n, fn=f, sample="2")
 
 
-def r5(ctx, cfg):
+def r5(ctx, cfg, R="C09.R5"):
     F, P = cfg.facts, cfg.prov
-    R = "C09.R5"
     f = ctx.need_fn(R, QUERY)
     if f is None:
         return
@@ -497,7 +496,47 @@ def r5(ctx, cfg):
                         any(contains(x, lambda y: is_param(y, "denom")) for x in args)]
                 if not good or len(ec) != len(good):
                     bad.append("%s at line %s under %s" % (t["callee"]["name"], t["line"], [(p0, pol) for p0, a0, pol in ec]))
-            if not sites:
+            # the same sum as an iterator chain: `<all coins of all balances>.filter(|c| c.denom == denom).map(|c| c.amount).sum()`
+            chain_ok = None
+            sums = [(b0, t0) for b0, t0 in g.calls() if t0["callee"]["key"] in ("std::iter::Iterator::sum", "std::iter::Sum::sum")]
+            if not sites and len(sums) == 1:
+                o = peel(P.call_args(g, sums[0][1], sums[0][0])[0])
+                filters, maps, other = [], [], []
+                while o[0] == "call" and o[1].startswith(("std::iter::Iterator::", "std::iter::IntoIterator::", "std::iter::DoubleEndedIterator::")) and o[2]:
+                    nm = o[1].rsplit("::", 1)[-1]
+                    cl = peel(o[2][1]) if len(o[2]) > 1 else None
+                    h = F.fn(cl[1]) if cl is not None and cl[0] == "closure" else None
+                    if nm == "filter":
+                        filters.append(h)
+                    elif nm == "map":
+                        maps.append(h)
+                    elif nm in ("flat_map", "flatten", "into_iter", "iter", "copied", "cloned"):
+                        pass
+                    else:
+                        other.append(nm)
+                    o = peel(o[2][0])
+                def of_elem(x):
+                    return contains(x, lambda y: y[0] in ("bound", "cparam"))
+                okf = len(filters) == 1 and filters[0] is not None
+                if okf:
+                    pred, args0, pol = q.norm_cond(P.ret(filters[0]), True)
+                    okf = pred == "eq" and pol is True and len(args0) == 2 and \
+                        any(peel(x)[0] == "field" and peel(x)[2] == "denom" and of_elem(peel(x)[1]) for x in args0) and \
+                        any(contains(x, lambda y: (y[0] in ("param", "upvar") and y[-1] == "denom") or is_param(y, "denom")) and not of_elem(x) for x in args0)
+                okm = len(maps) == 1 and maps[0] is not None
+                if okm:
+                    mv = peel(P.ret(maps[0]))
+                    okm = mv[0] == "field" and mv[2] == "amount" and of_elem(mv[1])
+                chain_ok = okf and okm and not other
+                if not chain_ok:
+                    bad.append("the summed chain is not `.filter(|c| c.denom == denom).map(|c| c.amount)` over all coins (filters %d, maps %d, other adapters %s)" % (len(filters), len(maps), other))
+            # every coin of every balance counts: nothing in get_supply may pick single coins out (`binary_search`, `find`, `first`, ..)
+            picks = sorted({t0["callee"]["name"] for g0 in F.lexical(key) for b0, t0 in g0.calls() if not t0["callee"]["local"] and t0["callee"]["name"] in (
+                "binary_search", "binary_search_by", "binary_search_by_key", "find", "find_map", "position", "rposition", "nth", "first", "last", "min", "max", "min_by", "max_by",
+                "min_by_key", "max_by_key", "take", "skip", "step_by", "take_while", "skip_while", "get", "partition_point", "pop", "swap_remove", "truncate", "dedup")})
+            if picks:
+                bad.append("coins are picked out with %s instead of all being looked at" % picks)
+            if not sites and chain_ok is None:
                 # the scan with its denomination test is there, but nothing is added under it
                 scan = any(c[0] == "bool" and c[1][0] == "eq" and any(peel(x)[0] == "field" and peel(x)[2] == "denom" and peel(peel(x)[1])[0] == "bound" for x in c[1][1]) and
                            any(contains(x, lambda y: is_param(y, "denom")) for x in c[1][1])
@@ -507,6 +546,7 @@ def r5(ctx, cfg):
             ctx.ob(R, key, "supply-adds-only-coins-of-the-queried-denomination", not bad,
                    "an amount is added to the supply without (only) `coin.denom == denom` having held: %s" % bad, fn=g,
                    sample="%d add site(s) guarded by coin.denom == denom" % len(sites) if sites else
+                   "the summed chain filters on coin.denom == denom and maps to coin.amount" if chain_ok else
                    "NOT DECIDED: no `add(.., coin.amount)` site recognised in get_supply")
             # only additions, and the answer is made from what was added (a summation whose add is gone answers zero)
             arith = [(t0["callee"]["name"], t0["line"]) for g0 in F.lexical(key) for b0, t0 in g0.calls()
